@@ -24,6 +24,16 @@ BodyFailed(line) ==
        bodyOK == Valid(c.schema, w, "asreq")
        ok == SecPasses(c.sec) /\ bodyOK
        changed == ok /\ ~c.skip /\ ~Eq(w, c.v)
+       \* forms: the forwarded body is projected with the library's (schema-driven) form decoder, which leaves out what the schema does
+       \* not declare; the body sent is projected the same way (parsed0) and the comparison is between the two projections
+       isForm == "fields0" \in DOMAIN line
+       wcmp == IF isForm /\ "parsed0" \in DOMAIN line THEN WithDefaults(c.schema, line.parsed0) ELSE w
+       RangeOf(f) == {f[i] : i \in DOMAIN f}
+       Defaultable == IF Has(c.schema, "pk") THEN {c.schema.pk[i] : i \in {j \in DOMAIN c.schema.pk : Has(c.schema.ps[j], "default")}} ELSE {}
+       \* "nothing else changes", for a form: every name=value pair received is still there, and the names that were added are
+       \* properties with a default -- whatever the schema declares or the encoding says about the others
+       FormKept(f) == /\ RangeOf(line.fields0) \subseteq RangeOf(f)
+                      /\ ({p.n : p \in RangeOf(f)} \ {p.n : p \in RangeOf(line.fields0)}) \subseteq (IF c.skip THEN {} ELSE Defaultable)
    IN
    (IF ok /\ line.verdict1 # "ok" THEN {"valid_request_accepted"} ELSE {})
    \cup (IF ~ok /\ line.verdict1 = "ok" THEN {"invalid_request_rejected"} ELSE {})
@@ -32,12 +42,14 @@ BodyFailed(line) ==
    \* accepted without applicable defaults, or defaults off: byte-for-byte what was received
    \* (byte-for-byte is promised when default-setting is skipped; with it on and nothing to add, the request must not
    \* change -- a re-encoding of the same JSON value is the same request)
-   \cup (IF ok /\ ~changed /\ line.after1 # line.sent /\ (c.skip \/ ~("parsed1" \in DOMAIN line /\ Eq(line.parsed1, c.v)))
+   \cup (IF ok /\ ~changed /\ line.after1 # line.sent /\ (c.skip \/ ~("parsed1" \in DOMAIN line /\ Eq(line.parsed1, IF isForm /\ "parsed0" \in DOMAIN line THEN line.parsed0 ELSE c.v)))
          THEN {"body_readable_unchanged"} ELSE {})
    \* rejected: still readable in full (as received, or already completed with its defaults)
    \cup (IF ~ok /\ line.after1 # line.sent /\ ~("parsed1" \in DOMAIN line /\ ~c.skip /\ Eq(line.parsed1, WithDefaults(c.schema, c.v)))
          THEN {"body_readable_in_full"} ELSE {})
-   \cup (IF changed /\ ~("parsed1" \in DOMAIN line /\ Eq(line.parsed1, w)) THEN {"defaults_exactly_once"} ELSE {})
+   \cup (IF changed /\ ~("parsed1" \in DOMAIN line /\ Eq(line.parsed1, wcmp)) THEN {"defaults_exactly_once"} ELSE {})
+   \cup (IF isForm /\ ok /\ ~(("fields1" \in DOMAIN line => FormKept(line.fields1)) /\ ("fields2" \in DOMAIN line => FormKept(line.fields2)))
+         THEN {"form_nothing_else_changes"} ELSE {})
    \* (a body of unknown length may stay of unknown length: ContentLength 0 next to a non-empty body)
    \cup (IF line.clen1 # line.len1 /\ ~(c.unsized /\ line.clen1 = 0) THEN {"content_length_matches"} ELSE {})
    \cup (IF line.getbody1 # "<nil>" /\ line.getbody1 # line.after1 THEN {"getbody_yields_same"} ELSE {})
@@ -128,7 +140,8 @@ TreeEncoders == {"application/json", "application/json-patch+json", "application
                  "application/problem+json", "application/x-yaml", "application/yaml"}
 M == INSTANCE BodyStreamH WITH EncoderBuffer <- "fresh", EncodeVar <- "own", Encoders <- TreeEncoders, NoEncoder <- "forward", CloseBinding <- "at_defer"
 BranchSets(b, v) == ~Eq(WithDefaults(b, v), v)
-Reenc(s, v) == \/ Has(s, "oneOf") /\ \E i \in DOMAIN s.oneOf : BranchSets(s.oneOf[i], v)
+Reenc(s, v) == \/ Has(s, "oneOf") /\ ~(Has(s, "dmap") /\ s.dmap.keys # <<>>)     \* (a mapping: only the designated branch is tried)
+                  /\ \E i \in DOMAIN s.oneOf : BranchSets(s.oneOf[i], v)
                \/ Has(s, "anyOf") /\ \E i \in DOMAIN s.anyOf : BranchSets(s.anyOf[i], v) /\ \A j \in 1..(i - 1) : ~Matches(s.anyOf[j], v)
 MCfg(r) == LET wd == WithDefaults(r.schema, r.v) IN
    [mt |-> r.mt, valid |-> Valid(r.schema, IF r.skip THEN r.v ELSE wd, "asreq"), hasDef |-> ~Eq(wd, r.v), reenc |-> Reenc(r.schema, wd), skip |-> r.skip, preset |-> r.preset,
